@@ -48,12 +48,14 @@ Qed.
 
 Lemma tcmd_eqb_reflect a b : reflect (a = b) (tcmd_eqb a b).
 Proof.
-  destruct a as [w|w|d u| |], b as [w'|w'|d' u'| |]; cbn; try (constructor; congruence).
+  destruct a as [w|w|d u| | |w|w], b as [w'|w'|d' u'| | |w'|w']; cbn; try (constructor; congruence).
   - destruct (str_eqb_spec w w') as [->|H]; constructor; congruence.
   - destruct (str_eqb_spec w w') as [->|H]; constructor; congruence.
   - destruct (str_eqb_spec d d') as [->|H]; cbn; [|constructor; congruence].
     destruct u as [u|], u' as [u'|]; cbn; try (constructor; congruence).
     destruct (str_eqb_spec u u') as [->|H]; constructor; congruence.
+  - destruct (str_eqb_spec w w') as [->|H]; constructor; congruence.
+  - destruct (str_eqb_spec w w') as [->|H]; constructor; congruence.
 Qed.
 
 (* ---------------------------------------------------------------------------------------------- *)
@@ -70,8 +72,28 @@ Proof.
     split; intros [H1 H2]; try discriminate; try contradiction; auto.
 Qed.
 
+Lemma outcome_args_same_inputs a b args : same_inputs a b -> outcome_args a args = outcome_args b args.
+Proof. intros [Hc Hf]; unfold outcome_args, test_act; rewrite Hc, Hf; reflexivity. Qed.
+
 Lemma outcome_same_inputs a b : same_inputs a b -> outcome a = outcome b.
-Proof. intros [Hc Hf]; unfold outcome, test_act; rewrite Hc, Hf; reflexivity. Qed.
+Proof. apply outcome_args_same_inputs. Qed.
+
+(* a run without arguments: what the step reports when it runs is the argument-less outcome *)
+Lemma step_outcome_no_args x : s_args x = [] -> step_outcome x = outcome (s_def x).
+Proof. unfold step_outcome, outcome; intros ->; reflexivity. Qed.
+
+(* ---------------------------------------------------------------------------------------------- *)
+(* cacheOutputFiles as the source has it (Gen.store_steps): a run with arguments stores nothing, a run
+   without arguments stamps the results file and fills the cache.  This is the only place where the proofs
+   look at the ORDER of the guards and effects; it fails when a guard moves behind an effect. *)
+
+Lemma exec_store_gen cache_on args k cache :
+  exec_store cache_on (has_args args) k store_steps None cache
+  = if has_args args then (None, cache) else (Some k, if cache_on then k :: cache else cache).
+Proof. destruct cache_on, (has_args args); reflexivity. Qed.
+
+Lemma has_args_false a : has_args a = false -> a = [].
+Proof. destruct a; [reflexivity | discriminate]. Qed.
 
 Lemma same_inputs_refl a : same_inputs a a.
 Proof. split; reflexivity. Qed.
@@ -113,18 +135,18 @@ Qed.
 (* ---------------------------------------------------------------------------------------------- *)
 (* one step *)
 
-Lemma report_ran_pass c st x : snd (do_step c st x) = RanPass -> outcome (s_def x) = true.
+Lemma report_ran_pass c st x : snd (do_step c st x) = RanPass -> step_outcome x = true.
 Proof.
-  unfold do_step, test_step.
+  unfold do_step, test_step, step_outcome.
   destruct (negb _); cbn [snd]; [discriminate|].
-  destruct (outcome (s_def x)); cbn [snd]; [reflexivity | discriminate].
+  destruct (outcome_args (s_def x) (s_args x)); cbn [snd]; [reflexivity | discriminate].
 Qed.
 
-Lemma report_ran_fail c st x : snd (do_step c st x) = RanFail -> outcome (s_def x) = false.
+Lemma report_ran_fail c st x : snd (do_step c st x) = RanFail -> step_outcome x = false.
 Proof.
-  unfold do_step, test_step.
+  unfold do_step, test_step, step_outcome.
   destruct (negb _); cbn [snd]; [discriminate|].
-  destruct (outcome (s_def x)); cbn [snd]; [discriminate | reflexivity].
+  destruct (outcome_args (s_def x) (s_args x)); cbn [snd]; [discriminate | reflexivity].
 Qed.
 
 (* a result is reused only from a stored key equal to the current one *)
@@ -140,24 +162,26 @@ Proof.
     destruct (st_local st') as [l|] eqn:Hl.
   1: { destruct (key_eqb l k) eqn:Hk; cbn [negb snd].
        - intros _; left; apply key_eqb_eq in Hk; subst; reflexivity.
-       - destruct (outcome (s_def x)); cbn [snd]; discriminate. }
+       - destruct (outcome_args (s_def x) (s_args x)); cbn [snd]; discriminate. }
   all: destruct (c && mem_key k (st_cache st')) eqn:Hm; cbn [negb snd];
     [ intros _; right; apply andb_true_iff in Hm; apply mem_key_in, Hm
-    | destruct (outcome (s_def x)); cbn [snd]; discriminate ].
+    | destruct (outcome_args (s_def x) (s_args x)); cbn [snd]; discriminate ].
 Qed.
 
 (* ---------------------------------------------------------------------------------------------- *)
-(* the invariant: every stored key was put there by a run of the test, in this history, that passed *)
+(* the invariant: every stored key was put there by a run of the test, in this history, that passed AND
+   was given no test arguments *)
 
 Definition justified (c : bool) (pre : list step) (k : key) : Prop :=
-  exists pre1 y post1, pre = pre1 ++ y :: post1 /\ report_at c pre1 y = RanPass /\ runtime_key (s_def y) = k.
+  exists pre1 y post1, pre = pre1 ++ y :: post1 /\ report_at c pre1 y = RanPass /\ runtime_key (s_def y) = k
+                       /\ s_args y = [].
 
 Definition inv (c : bool) (pre : list step) (st : tstate) : Prop :=
   (forall k, st_local st = Some k -> justified c pre k) /\ (forall k, In k (st_cache st) -> justified c pre k).
 
 Lemma justified_snoc c pre x k : justified c pre k -> justified c (pre ++ [x]) k.
 Proof.
-  intros (pre1 & y & post1 & -> & Hr & Hk).
+  intros (pre1 & y & post1 & -> & Hr & Hk & Ha).
   exists pre1, y, (post1 ++ [x]); rewrite <- app_assoc; auto.
 Qed.
 
@@ -168,8 +192,9 @@ Lemma inv_step c pre x : inv c pre (state_after c pre) -> inv c (pre ++ [x]) (st
 Proof.
   intros Hinv; rewrite state_after_snoc.
   pose proof (report_cached c (state_after c pre) x) as Hcached.
-  assert (Hnew : snd (do_step c (state_after c pre) x) = RanPass -> justified c (pre ++ [x]) (runtime_key (s_def x))).
-  { intros Hr; exists pre, x, []; auto. }
+  assert (Hnew : snd (do_step c (state_after c pre) x) = RanPass -> s_args x = [] ->
+                 justified c (pre ++ [x]) (runtime_key (s_def x))).
+  { intros Hr Ha; exists pre, x, []; auto. }
   set (st' := if s_rm x then rm_plz_out (state_after c pre) else state_after c pre) in *.
   assert (Hinv' : inv c pre st').
   { subst st'; destruct (s_rm x); [apply inv_rm|]; exact Hinv. }
@@ -181,9 +206,11 @@ Proof.
   - intros Hcached _; cbn zeta in Hcached. split; cbn [st_local st_cache].
     + intros k0 [= <-]. destruct (Hcached eq_refl) as [H|H]; apply justified_snoc; auto.
     + exact Hold.
-  - destruct (outcome (s_def x)); cbn [fst snd]; intros _ Hnew; split; cbn [st_local st_cache].
-    + intros k0 [= <-]; auto.
-    + destruct c; [intros k0 [<-|Hin]; auto | exact Hold].
+  - destruct (outcome_args (s_def x) (s_args x)); cbn [fst snd]; intros _ Hnew; split; cbn [st_local st_cache].
+    + rewrite exec_store_gen. destruct (has_args (s_args x)) eqn:Ha; cbn [fst]; [discriminate|].
+      intros k0 [= <-]; apply Hnew; [reflexivity | apply has_args_false, Ha].
+    + rewrite exec_store_gen. destruct (has_args (s_args x)) eqn:Ha; cbn [snd]; [exact Hold|].
+      destruct c; [intros k0 [<-|Hin]; [apply Hnew; [reflexivity | apply has_args_false, Ha] | auto] | exact Hold].
     + discriminate.
     + exact Hold.
 Qed.
@@ -199,7 +226,7 @@ Qed.
 (* consequences, for every history - no hypothesis *)
 
 (* A cached result is reported only if an EARLIER step of the history actually ran the test, that run
-   passed, and its runtime key equals the current one. *)
+   passed, it was given NO test arguments, and its runtime key equals the current one. *)
 Theorem cached_only_from_passing_run c pre x :
   report_at c pre x = CachedPass -> justified c pre (runtime_key (s_def x)).
 Proof.
@@ -213,24 +240,43 @@ Qed.
    failed leaves no local result behind. *)
 Theorem failure_is_a_real_run c pre x :
   passed (report_at c pre x) = false ->
-  report_at c pre x = RanFail /\ outcome (s_def x) = false /\ st_local (state_after c (pre ++ [x])) = None.
+  report_at c pre x = RanFail /\ step_outcome x = false /\ st_local (state_after c (pre ++ [x])) = None.
 Proof.
   intros Hp. assert (Hr : report_at c pre x = RanFail) by (destruct (report_at c pre x); cbn in Hp; congruence).
   split; [exact Hr|]. split; [exact (report_ran_fail _ _ _ Hr)|].
   rewrite state_after_snoc. revert Hr; unfold report_at, do_step, test_step.
   destruct (negb _); cbn [fst snd]; [discriminate|].
-  destruct (outcome (s_def x)); cbn [fst snd]; [discriminate | reflexivity].
+  destruct (outcome_args (s_def x) (s_args x)); cbn [fst snd]; [discriminate | reflexivity].
 Qed.
 
 Theorem stored_keys_passed c pre k :
   st_local (state_after c pre) = Some k \/ In k (st_cache (state_after c pre)) ->
   exists pre1 y post1, pre = pre1 ++ y :: post1 /\ report_at c pre1 y = RanPass
-                       /\ outcome (s_def y) = true /\ runtime_key (s_def y) = k.
+                       /\ outcome (s_def y) = true /\ runtime_key (s_def y) = k /\ s_args y = [].
 Proof.
   intros H. destruct (inv_after c pre) as [Hl Hc].
   assert (J : justified c pre k) by (destruct H; auto).
-  destruct J as (pre1 & y & post1 & -> & Hr & Hk).
-  exists pre1, y, post1; repeat split; auto. exact (report_ran_pass _ _ _ Hr).
+  destruct J as (pre1 & y & post1 & -> & Hr & Hk & Ha).
+  exists pre1, y, post1; repeat split; auto.
+  rewrite <- (step_outcome_no_args y Ha). exact (report_ran_pass _ _ _ Hr).
+Qed.
+
+(* A run that was given test arguments stores nothing: whatever the results file or the cache hold after
+   such a step was there before it (the results file only if the step reused it). *)
+Theorem args_step_stores_nothing c pre x :
+  s_args x <> [] ->
+  (forall k, In k (st_cache (state_after c (pre ++ [x]))) -> In k (st_cache (state_after c pre)))
+  /\ (forall k, st_local (state_after c (pre ++ [x])) = Some k -> report_at c pre x = CachedPass).
+Proof.
+  intros Ha. assert (Hh : has_args (s_args x) = true) by (destruct (s_args x); [contradiction | reflexivity]).
+  rewrite state_after_snoc; unfold report_at, do_step, test_step.
+  set (st' := if s_rm x then rm_plz_out (state_after c pre) else state_after c pre).
+  assert (Hc : st_cache st' = st_cache (state_after c pre)) by (subst st'; destruct (s_rm x); reflexivity).
+  destruct (negb _); cbn [fst snd st_cache st_local].
+  - rewrite Hc; split; auto.
+  - destruct (outcome_args (s_def x) (s_args x)); cbn [fst snd st_cache st_local].
+    + rewrite exec_store_gen, Hh; cbn [fst snd]. rewrite Hc; split; [auto | discriminate].
+    + rewrite Hc; split; [auto | discriminate].
 Qed.
 
 (* ---------------------------------------------------------------------------------------------- *)
@@ -240,26 +286,37 @@ Qed.
 Definition key_sound_on (h : list step) : Prop :=
   forall x y, In x h -> In y h -> runtime_key (s_def x) = runtime_key (s_def y) -> same_inputs (s_def x) (s_def y).
 
+(* needToRun does not look at the test arguments: harmless where they do not change the outcome *)
+Definition args_sound_on (h : list step) : Prop :=
+  forall x y, In x h -> In y h -> runtime_key (s_def x) = runtime_key (s_def y) -> s_args x = [] ->
+              step_outcome y = outcome (s_def y).
+
 Definition reuse_sound_at (c : bool) (pre : list step) (x : step) : Prop :=
   report_at c pre x = CachedPass ->
-  exists pre1 y post1, pre = pre1 ++ y :: post1 /\ report_at c pre1 y = RanPass /\ same_inputs (s_def y) (s_def x).
+  exists pre1 y post1, pre = pre1 ++ y :: post1 /\ report_at c pre1 y = RanPass /\ same_inputs (s_def y) (s_def x)
+                       /\ s_args y = [].
 
 Definition outcome_fresh_at (c : bool) (pre : list step) (x : step) : Prop :=
-  passed (report_at c pre x) = outcome (s_def x).
+  passed (report_at c pre x) = step_outcome x.
 
 Lemma reuse_sound_of_key_sound c pre x : key_sound_on (pre ++ [x]) -> reuse_sound_at c pre x.
 Proof.
-  intros Hs Hr. destruct (cached_only_from_passing_run c pre x Hr) as (pre1 & y & post1 & -> & Hy & Hk).
-  exists pre1, y, post1; split; [reflexivity|]; split; [exact Hy|].
+  intros Hs Hr. destruct (cached_only_from_passing_run c pre x Hr) as (pre1 & y & post1 & -> & Hy & Hk & Ha).
+  exists pre1, y, post1; split; [reflexivity|]; split; [exact Hy|]. split; [|exact Ha].
   apply Hs; [| | exact Hk]; rewrite !in_app_iff; cbn; tauto.
 Qed.
 
-Lemma outcome_fresh_of_key_sound c pre x : key_sound_on (pre ++ [x]) -> outcome_fresh_at c pre x.
+Lemma outcome_fresh_of_key_sound c pre x :
+  key_sound_on (pre ++ [x]) -> args_sound_on (pre ++ [x]) -> outcome_fresh_at c pre x.
 Proof.
-  intros Hs; unfold outcome_fresh_at.
+  intros Hs Has; unfold outcome_fresh_at.
   destruct (report_at c pre x) eqn:Hr; cbn [passed].
-  - destruct (reuse_sound_of_key_sound c pre x Hs Hr) as (pre1 & y & post1 & _ & Hy & Hsame).
-    rewrite <- (outcome_same_inputs _ _ Hsame). symmetry; exact (report_ran_pass _ _ _ Hy).
+  - destruct (cached_only_from_passing_run c pre x Hr) as (pre1 & y & post1 & -> & Hy & Hk & Ha).
+    assert (Hiny : In y ((pre1 ++ y :: post1) ++ [x])) by (rewrite !in_app_iff; cbn; tauto).
+    assert (Hinx : In x ((pre1 ++ y :: post1) ++ [x])) by (rewrite !in_app_iff; cbn; tauto).
+    rewrite (Has y x Hiny Hinx Hk Ha).
+    rewrite <- (outcome_same_inputs _ _ (Hs y x Hiny Hinx Hk)).
+    rewrite <- (step_outcome_no_args y Ha). symmetry; exact (report_ran_pass _ _ _ Hy).
   - symmetry; exact (report_ran_pass _ _ _ Hr).
   - symmetry; exact (report_ran_fail _ _ _ Hr).
 Qed.
@@ -285,14 +342,31 @@ Proof.
   destruct (list_eqb str_eqb _ _); discriminate.
 Qed.
 
-Lemma defect_class_none h : defect_class h = None -> key_sound_on h.
+Lemma step_pair_defect_none x y :
+  step_pair_defect x y = None ->
+  runtime_key (s_def x) = runtime_key (s_def y) ->
+  same_inputs (s_def x) (s_def y) /\ (s_args x = [] -> step_outcome y = outcome (s_def y)).
 Proof.
-  intros H x y Hx Hy Hk. unfold defect_class in H.
-  pose proof (first_some_none _ _ H x Hx) as H1; cbn beta in H1.
-  exact (pair_defect_none _ _ (first_some_none _ _ H1 y Hy) Hk).
+  unfold step_pair_defect; intros H Hk.
+  destruct (pair_defect (s_def x) (s_def y)) eqn:Hp; [discriminate|].
+  split; [exact (pair_defect_none _ _ Hp Hk)|].
+  intros Ha. apply key_eqb_eq in Hk; rewrite Hk, Ha in H; cbn [andb has_args negb] in H.
+  destruct (step_outcome y), (outcome (s_def y)); cbn in H; congruence.
+Qed.
+
+Lemma defect_class_none h : defect_class h = None -> key_sound_on h /\ args_sound_on h.
+Proof.
+  intros H; unfold defect_class in H; split; intros x y Hx Hy Hk;
+    pose proof (first_some_none _ _ H x Hx) as H1; cbn beta in H1;
+    destruct (step_pair_defect_none _ _ (first_some_none _ _ H1 y Hy) Hk) as [Hs Ha]; auto.
 Qed.
 
 Lemma key_sound_prefix pre x post : key_sound_on (pre ++ x :: post) -> key_sound_on (pre ++ [x]).
+Proof.
+  intros H a b Ha Hb; apply H; rewrite in_app_iff in *; cbn in *; tauto.
+Qed.
+
+Lemma args_sound_prefix pre x post : args_sound_on (pre ++ x :: post) -> args_sound_on (pre ++ [x]).
 Proof.
   intros H a b Ha Hb; apply H; rewrite in_app_iff in *; cbn in *; tauto.
 Qed.
@@ -302,43 +376,61 @@ Theorem partial_of_no_defect c h :
   defect_class h = None ->
   forall pre x post, h = pre ++ x :: post -> reuse_sound_at c pre x /\ outcome_fresh_at c pre x.
 Proof.
-  intros Hd pre x post ->. apply defect_class_none, key_sound_prefix in Hd.
-  split; [apply reuse_sound_of_key_sound | apply outcome_fresh_of_key_sound]; exact Hd.
+  intros Hd pre x post ->. apply defect_class_none in Hd. destruct Hd as [Hk Ha].
+  apply key_sound_prefix in Hk. apply args_sound_prefix in Ha.
+  split; [apply reuse_sound_of_key_sound | apply outcome_fresh_of_key_sound]; assumption.
 Qed.
 
 (* ---------------------------------------------------------------------------------------------- *)
-(* the witnesses: the real key (Gen.C11RuntimeHash.loop_writes) is blind to names *)
+(* the witnesses: the real key (Gen.C11RuntimeHash.loop_writes) is blind to names, and needToRun is blind to
+   the test arguments *)
 
-Definition mk (cmd : tcmd) (files : list rfile) : tdef :=
-  {| t_rule := [s "//p:t"; s "//p:g"; s "s.txt"; s "t.bin"; s "cat"; s "//p:g"; s "test -e"];
-     t_cmd := cmd; t_files := {| rf_role := ROut; rf_dest := s "t.bin"; rf_node := File (s "bin") |} :: files;
-     t_bin := s "bin" |}.
+Definition mk (cmd : tcmd) (files : list rfile) : tsrc :=
+  {| ts_rule := [s "//p:t"; s "//p:g"; s "s.txt"; s "t.bin"; s "cat"; s "//p:g"];
+     ts_cmds := Single (s "test") cmd;
+     ts_files := {| rf_role := ROut; rf_dest := s "t.bin"; rf_node := File (s "bin") |} :: files;
+     ts_bin := s "bin" |}.
+
+Definition plain (t : tsrc) : step := {| s_rm := false; s_config := []; s_args := []; s_src := t |}.
 
 (* the output of the data dependency //p:g is renamed x.txt -> y.txt, same content *)
 Definition w_rename : list step :=
-  [ {| s_rm := false; s_def := mk (TExists (s "p/x.txt") None) [{| rf_role := RData; rf_dest := s "p/x.txt"; rf_node := File (s "ok") |}] |};
-    {| s_rm := false; s_def := mk (TExists (s "p/x.txt") None) [{| rf_role := RData; rf_dest := s "p/y.txt"; rf_node := File (s "ok") |}] |} ].
+  [ plain (mk (TExists (s "p/x.txt") None) [{| rf_role := RData; rf_dest := s "p/x.txt"; rf_node := File (s "ok") |}]);
+    plain (mk (TExists (s "p/x.txt") None) [{| rf_role := RData; rf_dest := s "p/y.txt"; rf_node := File (s "ok") |}]) ].
 
 (* an entry of the data directory p/dd is renamed a.txt -> aa.txt, same content, same walk order *)
 Definition w_dir : list step :=
-  [ {| s_rm := false; s_def := mk (TExists (s "p/dd") (Some (s "a.txt")))
-         [{| rf_role := RData; rf_dest := s "p/dd"; rf_node := Dir [(s "a.txt", s "one"); (s "b.txt", s "two")] |}] |};
-    {| s_rm := false; s_def := mk (TExists (s "p/dd") (Some (s "a.txt")))
-         [{| rf_role := RData; rf_dest := s "p/dd"; rf_node := Dir [(s "aa.txt", s "one"); (s "b.txt", s "two")] |}] |} ].
+  [ plain (mk (TExists (s "p/dd") (Some (s "a.txt")))
+         [{| rf_role := RData; rf_dest := s "p/dd"; rf_node := Dir [(s "a.txt", s "one"); (s "b.txt", s "two")] |}]);
+    plain (mk (TExists (s "p/dd") (Some (s "a.txt")))
+         [{| rf_role := RData; rf_dest := s "p/dd"; rf_node := Dir [(s "aa.txt", s "one"); (s "b.txt", s "two")] |}]) ].
+
+(* `plz test //p:t`, then `plz test //p:t -- bad` on the same tree, the test fails iff its first argument is bad *)
+Definition w_args : list step :=
+  [ plain (mk (TArgIsNot (s "bad")) []);
+    {| s_rm := false; s_config := []; s_args := [s "bad"]; s_src := mk (TArgIsNot (s "bad")) [] |} ].
 
 Lemma w_rename_stale :
-  forall c, exists pre x, w_rename = pre ++ [x] /\ report_at c pre x = CachedPass /\ outcome (s_def x) = false
+  forall c, exists pre x, w_rename = pre ++ [x] /\ report_at c pre x = CachedPass /\ step_outcome x = false
                           /\ defect_class w_rename = Some RuntimeFileNamesNotHashed.
 Proof.
-  intros c; exists [hd {| s_rm := false; s_def := mk TTrue [] |} w_rename], (last w_rename {| s_rm := false; s_def := mk TTrue [] |}).
+  intros c; exists [hd (plain (mk TTrue [])) w_rename], (last w_rename (plain (mk TTrue []))).
   destruct c; vm_compute; repeat split.
 Qed.
 
 Lemma w_dir_stale :
-  forall c, exists pre x, w_dir = pre ++ [x] /\ report_at c pre x = CachedPass /\ outcome (s_def x) = false
+  forall c, exists pre x, w_dir = pre ++ [x] /\ report_at c pre x = CachedPass /\ step_outcome x = false
                           /\ defect_class w_dir = Some DirEntryNamesNotHashed.
 Proof.
-  intros c; exists [hd {| s_rm := false; s_def := mk TTrue [] |} w_dir], (last w_dir {| s_rm := false; s_def := mk TTrue [] |}).
+  intros c; exists [hd (plain (mk TTrue [])) w_dir], (last w_dir (plain (mk TTrue []))).
+  destruct c; vm_compute; repeat split.
+Qed.
+
+Lemma w_args_stale :
+  forall c, exists pre x, w_args = pre ++ [x] /\ report_at c pre x = CachedPass /\ step_outcome x = false
+                          /\ defect_class w_args = Some ArgsNotInKey.
+Proof.
+  intros c; exists [hd (plain (mk TTrue [])) w_args], (last w_args (plain (mk TTrue []))).
   destruct c; vm_compute; repeat split.
 Qed.
 
@@ -376,10 +468,10 @@ Qed.
 Definition reuse_sound_pos (c : bool) (h : list step) (n : nat) (x : step) : Prop :=
   nth_error (reports c h) n = Some CachedPass ->
   exists i y, i < n /\ nth_error h i = Some y /\ nth_error (reports c h) i = Some RanPass
-              /\ same_inputs (s_def y) (s_def x).
+              /\ same_inputs (s_def y) (s_def x) /\ s_args y = [].
 
 Definition outcome_fresh_pos (c : bool) (h : list step) (n : nat) (x : step) : Prop :=
-  exists r, nth_error (reports c h) n = Some r /\ passed r = outcome (s_def x).
+  exists r, nth_error (reports c h) n = Some r /\ passed r = step_outcome x.
 
 Theorem partial_by_position c h :
   defect_class h = None ->
@@ -390,7 +482,7 @@ Proof.
   destruct (partial_of_no_defect c h Hd pre x post Hh) as [Hreuse Hfresh].
   split.
   - unfold reuse_sound_pos; rewrite Hrep; intros [= Hr].
-    destruct (Hreuse Hr) as (pre1 & y & post1 & Hpre & Hy & Hsame).
+    destruct (Hreuse Hr) as (pre1 & y & post1 & Hpre & Hy & Hsame & Ha).
     subst pre h. destruct (earlier_position c pre1 y post1 x post) as (Hlt & Hy1 & Hy2).
     exists (length pre1), y; repeat split; try assumption; try (apply Hsame).
     + lia.
@@ -398,43 +490,63 @@ Proof.
   - exists (report_at c pre x); split; [exact Hrep | exact Hfresh].
 Qed.
 
-(* no hypothesis on the history: reuse comes from a passing run with an equal KEY; failures are real runs *)
+(* no hypothesis on the history: reuse comes from a passing, argument-less run with an equal KEY; failures
+   are real runs *)
 Theorem no_failure_cached_by_position c h n x :
   nth_error h n = Some x ->
   (nth_error (reports c h) n = Some CachedPass ->
      exists i y, i < n /\ nth_error h i = Some y /\ nth_error (reports c h) i = Some RanPass
-                 /\ outcome (s_def y) = true /\ runtime_key (s_def y) = runtime_key (s_def x))
-  /\ (nth_error (reports c h) n = Some RanFail -> outcome (s_def x) = false)
-  /\ (nth_error (reports c h) n = Some RanPass -> outcome (s_def x) = true).
+                 /\ outcome (s_def y) = true /\ runtime_key (s_def y) = runtime_key (s_def x) /\ s_args y = [])
+  /\ (nth_error (reports c h) n = Some RanFail -> step_outcome x = false)
+  /\ (nth_error (reports c h) n = Some RanPass -> step_outcome x = true).
 Proof.
   intros Hn. destruct (report_at_position c h n x Hn) as (pre & post & Hh & Hlen & Hrep).
   rewrite Hrep. repeat split.
   - intros [= Hr].
-    destruct (cached_only_from_passing_run c pre x Hr) as (pre1 & y & post1 & Hpre & Hy & Hk).
+    destruct (cached_only_from_passing_run c pre x Hr) as (pre1 & y & post1 & Hpre & Hy & Hk & Ha).
     subst pre h. destruct (earlier_position c pre1 y post1 x post) as (Hlt & Hy1 & Hy2).
     exists (length pre1), y; repeat split; try assumption.
     + lia.
     + rewrite Hy2, Hy; reflexivity.
-    + exact (report_ran_pass _ _ _ Hy).
+    + rewrite <- (step_outcome_no_args y Ha). exact (report_ran_pass _ _ _ Hy).
   - intros [= Hr]; exact (report_ran_fail _ _ _ Hr).
   - intros [= Hr]; exact (report_ran_pass _ _ _ Hr).
 Qed.
 
-(* whatever is stored after any history was stored by a run that passed *)
+(* whatever is stored after any history was stored by a run that passed and had no test arguments *)
 Theorem stored_only_passes c h k :
   st_local (state_after c h) = Some k \/ In k (st_cache (state_after c h)) ->
   exists i y, nth_error h i = Some y /\ nth_error (reports c h) i = Some RanPass
-              /\ outcome (s_def y) = true /\ runtime_key (s_def y) = k.
+              /\ outcome (s_def y) = true /\ runtime_key (s_def y) = k /\ s_args y = [].
 Proof.
-  intros H. destruct (stored_keys_passed c h k H) as (pre1 & y & post1 & -> & Hr & Ho & Hk).
+  intros H. destruct (stored_keys_passed c h k H) as (pre1 & y & post1 & -> & Hr & Ho & Hk & Ha).
   exists (length pre1), y; repeat split; auto.
   - apply nth_error_middle.
   - rewrite reports_nth, Hr; reflexivity.
+Qed.
+
+(* a step with test arguments stores nothing, by position: the cache holds no new key after it, and the
+   results file exists after it only if the step reused it *)
+Theorem args_run_never_stored c h x :
+  s_args x <> [] ->
+  (forall k, In k (st_cache (state_after c (h ++ [x]))) -> In k (st_cache (state_after c h)))
+  /\ (forall k, st_local (state_after c (h ++ [x])) = Some k ->
+        nth_error (reports c (h ++ [x])) (length h) = Some CachedPass).
+Proof.
+  intros Ha. destruct (args_step_stores_nothing c h x Ha) as [H1 H2]. split; [exact H1|].
+  intros k Hk. rewrite reports_nth. f_equal. exact (H2 k Hk).
 Qed.
 
 Lemma refuted_by_rename :
   ~ (forall c h n x, nth_error h n = Some x -> reuse_sound_pos c h n x /\ outcome_fresh_pos c h n x).
 Proof.
   intros H. destruct (H false w_rename 1 _ eq_refl) as [_ (r & Hr & Hp)].
+  vm_compute in Hr. injection Hr as <-. vm_compute in Hp. discriminate.
+Qed.
+
+Lemma refuted_by_args :
+  ~ (forall c h n x, nth_error h n = Some x -> outcome_fresh_pos c h n x).
+Proof.
+  intros H. destruct (H false w_args 1 _ eq_refl) as (r & Hr & Hp).
   vm_compute in Hr. injection Hr as <-. vm_compute in Hp. discriminate.
 Qed.
